@@ -375,8 +375,22 @@ class Vec(Sym):
             ok = ivec.forall(lambda k, e: z3.And(e >= -self.n, e < self.n))
             if not ctx.branch(ok):
                 raise PyRaise('IndexError')
-            if isinstance(value, (Vec, MaskSel)):
-                raise Unsupported('fancy store of an array value')
+            if isinstance(value, MaskSel):
+                raise Unsupported('fancy store of a masked selection')
+            if isinstance(value, Vec):
+                # x[idx] = v with equally long int-array idx and array v: x'[idx[k]] = v[k]; unique hits are required for a
+                # deterministic result (numpy: last write wins) -- callers pass a permutation / injective idx
+                if not ctx.branch(value.n == ivec.n):
+                    raise PyRaise('ValueError', note='shape mismatch in fancy assignment')
+                X = Vec.fresh(ctx, "%s'" % self.name, kind, n=self.n, report=False)
+                w = z3.Function(ctx.name('w!%s' % self.name), I, I)
+                norm = lambda x: z3.If(x < 0, x + self.n, x)
+                ctx.lemma('fancy-store-precondition:index-injective', qforall(2, lambda a, b: z3.Implies(z3.And(0 <= a, a < b, b < ivec.n), norm(ivec.sel(a)) != norm(ivec.sel(b)))))
+                ctx.assume(qforall(1, lambda k: z3.Implies(z3.And(0 <= k, k < ivec.n), eq_elem(kind, X.sel(norm(ivec.sel(k))), value.sel(k)))),
+                           axiom='x[idx] = v with injective integer-array idx: x[idx[k]] = v[k], every other position unchanged (Skolem witness form)')
+                ctx.assume(qforall(1, lambda j: z3.Or(eq_elem(kind, X.sel(j), old(j)), z3.And(0 <= w(j), w(j) < ivec.n, norm(ivec.sel(w(j))) == j))))
+                self._write(X._sel)
+                return
             e = unwrap(kind, value)
             # Skolem encoding: new array X with  (forall k: X[idx[k]] = e)  and  (forall j: X[j] = old[j] or idx[w(j)] = j)
             X = Vec.fresh(ctx, "%s'" % self.name, kind, n=self.n, report=False)
@@ -673,6 +687,25 @@ def _np_searchsorted(self, ctx, a, v, side='left', sorter=None):
 
 
 Numpy.np_searchsorted = _np_searchsorted
+
+
+def _np_cumsum(self, ctx, a):
+    """numpy.cumsum of a 1-D bool/int array: c[0] = a[0], c[k] = c[k-1] + a[k]  (L-CUMSUM)."""
+    if not (isinstance(a, Vec) and a.kind in ('int', 'bool')):
+        raise Unsupported('cumsum of %r' % (a,))
+    val = (lambda i: z3.If(a.sel(i), 1, 0)) if a.kind == 'bool' else a.sel
+    c = Vec.fresh(ctx, 'cumsum(%s)' % a.name, 'int', n=a.n, report=False)
+    ctx.assume(z3.Implies(a.n > 0, c.sel(z3.IntVal(0)) == val(z3.IntVal(0))), axiom='L-CUMSUM: numpy.cumsum recurrence c[0] = a[0], c[k] = c[k-1] + a[k]')
+    ctx.assume(qforall(1, lambda k: z3.Implies(z3.And(1 <= k, k < a.n), c.sel(k) == c.sel(k - 1) + val(k))))
+    return c
+
+
+def _np_empty_like(self, ctx, a):
+    return Vec.fresh(ctx, 'empty_like', a.kind, n=a.n, report=False)
+
+
+Numpy.np_cumsum = _np_cumsum
+Numpy.np_empty_like = _np_empty_like
 
 
 class Linalg:
